@@ -1200,7 +1200,7 @@ def _serve(schema_doc, cookie):
     return srv
 
 
-def cli_canary(chk, rng):
+def cli_canary(chk, rng, only=None):
     """real `st run` subprocesses (real sys.argv) x sanitize on/off x userinfo in the location x hooks-extended configuration"""
     st = Path(sys.executable).parent / "st"
     if not st.exists():
@@ -1211,6 +1211,8 @@ def cli_canary(chk, rng):
             sanitize = flag is not False
             for custom in (False, True):
                 if flag is None and custom:
+                    continue
+                if only is not None and (with_userinfo, flag, custom) not in only:
                     continue
                 can = Canaries(rng)
                 c = {r: can.new(r, True) for r in ("argv:--header", "argv:--auth", "generated:query", "generated:cookie", "generated:header",
@@ -1242,6 +1244,11 @@ def cli_canary(chk, rng):
                                "--max-examples", "3", "--phases", "fuzzing", "--checks", "not_a_server_error", "--seed", "1"]
                         if flag is not None:
                             cmd.append(f"--output-sanitize={str(flag).lower()}")
+                        # the neighbouring output option travels through the same constructor: whether payloads are truncated
+                        # must have no bearing on whether secrets are shown (opposite value of the sanitize flag, or absent)
+                        truncate = None if (runs % 3 == 2 and only is None) else (not sanitize)
+                        if truncate is not None:
+                            cmd.append(f"--output-truncate={str(truncate).lower()}")
                         r = subprocess.run(cmd, capture_output=True, text=True, cwd=d, env=env, timeout=120)
                         if r.returncode not in (0, 1) or "found 1 unique failures" not in r.stdout:
                             raise InfraError(f"CLI run did not produce the expected failure: rc={r.returncode} {r.stdout[-800:]} {r.stderr[-800:]}")
@@ -1258,6 +1265,7 @@ def cli_canary(chk, rng):
                 a = {"cmd": [x.replace(str(port), "PORT") for x in cmd[1:]], "sanitize": sanitize, "custom": custom}
                 chk.case("cli", key=[with_userinfo, flag, custom], nontrivial=True, sample={"cmd": a["cmd"]})
                 chk.feature(f"cli:sanitize={'default' if flag is None else flag}:userinfo={with_userinfo}:custom={custom}")
+                chk.feature(f"cli:sanitize={sanitize}:truncate={'default' if truncate is None else truncate}")
                 har_dead = sanitize and with_userinfo and (arts["har.json"].strip() == "" or "ValueError" in arts["stderr"])
                 if har_dead:
                     chk.violation(KF_HAR_CRASH, "the HAR writer thread dies on the first sanitized URL with userinfo: har.json is empty",
@@ -1391,6 +1399,8 @@ def run(chk):
     mech_console(chk, rng, configs, chk.variants["console_intro"])
     if chk.thorough:
         cli_canary(chk, rng)
+    else:       # every run: sanitization on with truncation off, and the reverse
+        cli_canary(chk, rng, only={(False, None, False), (False, False, False)})
     chk.exhaustive = False
 
 
